@@ -1,4 +1,4 @@
-CONSTANTS MaxLines = 2 MaxCols = 2 MaxIns = 2 InitCols = 2 InitLines = 1
+CONSTANTS MaxLines = 3 MaxCols = 2 MaxIns = 2 InitCols = 2 InitLines = 1
 SPECIFICATION SpecMC
 VIEW View
 INVARIANT Shape
